@@ -7,7 +7,7 @@ every file of the standard worlds.
 import itertools
 
 from mc import core, e2e
-from mc.coma import (AlignmentResultRow, AlignmentSegment, ScoredAlignedPair, AlignedPair, ScoredNotAlignedPosition,
+from mc.coma import (AlignmentResultRow, AlignmentSegment, EmptyAlignmentSegment, ScoredAlignedPair, AlignedPair, ScoredNotAlignedPosition,
                      NotAlignedReferencePosition, PositionWithSiteId as P, Peak)
 from mc.oracles import hitenum_problems
 
@@ -28,7 +28,8 @@ def splits(k):
             yield [a, b - a, k - b]
 
 
-def check_case(pairs, rev, split, interleave, acc):
+@core.guarded(lambda pairs, rev, split, interleave, acc=None, empties=0: dict(pairs=[list(p) for p in pairs], reverse=rev, split=split, interleave=interleave, empties=empties))
+def check_case(pairs, rev, split, interleave, acc, empties=0):
     pos = [ScoredAlignedPair(AlignedPair(P(r, r * 100), P(q, q * 100)), 1.) for r, q in pairs]
     segs = []
     i = 0
@@ -38,6 +39,11 @@ def check_case(pairs, rev, split, interleave, acc):
             part = [x for p in part for x in (p, ScoredNotAlignedPosition(NotAlignedReferencePosition(P(99, p.reference.position + 1)), -1.))][:-1]
         segs.append(AlignmentSegment(part, float(n), PEAK, part))
         i += n
+    # empty segments as conflict resolution / the join leave them: 1 = leading, 2 = trailing, 3 = both
+    if empties & 1:
+        segs.insert(0, EmptyAlignmentSegment(PEAK, []))
+    if empties & 2:
+        segs.append(EmptyAlignmentSegment(PEAK, []))
     row = AlignmentResultRow(segs, reverseStrand=rev)
     hit = row.cigarString
     found = [(p, 'pairs=%s strand=%s hit=%r' % (pairs, '-' if rev else '+', hit), 'row', {'pairs': min(len(pairs), 2)})
@@ -52,7 +58,7 @@ def check_case(pairs, rev, split, interleave, acc):
         acc.classes['pairs=%s' % ('1' if len(pairs) == 1 else '2+')] += 1
         if gaps:
             acc.classes['with-skipped-labels'] += 1
-        case = dict(pairs=[list(p) for p in pairs], reverse=rev, split=split, interleave=interleave)
+        case = dict(pairs=[list(p) for p in pairs], reverse=rev, split=split, interleave=interleave, empties=empties)
         for f in found:
             acc.viol(f[0], case, f[1], f[2], f[3])
         acc.sample(case)
@@ -80,9 +86,13 @@ class Grid(core.Layer):
                         for inter in (False, True):
                             acc.seq += 1
                             check_case(pairs, rev, sp, inter, acc)
+                        if len(sp) <= 2:
+                            for em in (1, 2, 3):
+                                acc.seq += 1
+                                check_case(pairs, rev, sp, False, acc, em)
 
     def replay(self, case):
-        return check_case([tuple(p) for p in case['pairs']], case['reverse'], case['split'], case['interleave'], None)
+        return check_case([tuple(p) for p in case['pairs']], case['reverse'], case['split'], case['interleave'], None, case.get('empties', 0))
 
 
 def layers(tier, seed):
